@@ -583,6 +583,33 @@ func sessionTraffic(R int) {
 	if admitted < R {
 		T.oracle("C19", "logins right after session traffic on a fresh instance were refused below the configured rate", M{"R": R, "admitted": admitted}, M{"family": "limiter", "scenario": "cold-instance", "R": R})
 	}
+	// ---- refreshes are verifications too: the 3R sessions of the first instance all come due within the same instant (their ID
+	// tokens have run out, each holds a refresh token, the provider answers each grant with a distinct valid ID token). Within one
+	// second at most rateLimit plus one burst of them may be verified, i.e. forwarded; the others are refused, not performed
+	vsleep(time.Hour + 3*time.Minute)
+	uniq := 0
+	p.onRefresh = func(form url.Values) tokenAnswer {
+		uniq++
+		cl := stdClaims(time.Now(), time.Hour)
+		cl["email"] = fmt.Sprintf("refreshed%d@example.com", uniq)
+		cl["uniq"] = uniq
+		return tokenAnswer{kind: "ok", idToken: stdToken(p.keys[0], cl), refresh: "rt-next"}
+	}
+	beforeR := d.calls
+	t0 := time.Now()
+	for i := range jars {
+		req := httptest.NewRequest("GET", "http://app.test/page", nil)
+		jars[i].addTo(req)
+		rec := httptest.NewRecorder()
+		inst.ServeHTTP(rec, req)
+	}
+	el := time.Since(t0)
+	T.statN("limiter.refresh-burst.sessions", k)
+	if fw := d.calls - beforeR; el < time.Second && fw > 2*R {
+		T.oracle("C19", "more refreshed ID tokens were verified (requests forwarded after a refresh) within one second than rateLimit plus one burst", M{"R": R, "sessions": k, "forwarded": fw, "uniq": uniq}, M{"family": "limiter", "scenario": "refresh-burst", "R": R})
+	} else if fw < R {
+		T.oracle("C19", "refreshes arriving together were admitted below the configured rate although a full burst was available", M{"R": R, "sessions": k, "forwarded": fw}, M{"family": "limiter", "scenario": "refresh-burst", "R": R})
+	}
 }
 
 // simpleLogin performs initiation + callback against the scripted provider; returns true when the callback redirected.
